@@ -249,6 +249,8 @@ def _writes(T, phase):
             sys.stdout.buffer.write(token.encode() + b'\xff\xfe')
         elif stream == 'print':
             print(token)
+        elif stream == 'fd2':
+            os.write(2, token.encode('utf-8'))       # straight to the process's stderr, whatever sys.stderr is
 
 
 def build(modname):
